@@ -452,9 +452,16 @@ fn workers_round(out: &mut Out, r: &mut Rng, nworkers: usize, nclients: usize, p
     };
     let addr = sp.addr();
     let seeds: Vec<u64> = (0..nclients).map(|_| r.next()).collect();
+    // burst rounds: the server is stopped while every client sends, so that the whole burst is queued
+    // behind a single readiness event when it continues (deterministic, unlike racing the worker)
+    let barrier = Arc::new(std::sync::Barrier::new(nclients + 1));
+    if burst {
+        sp.signal(libc::SIGSTOP);
+    }
     let handles: Vec<_> = seeds
         .into_iter()
         .map(|s| {
+            let barrier = barrier.clone();
             std::thread::spawn(move || {
                 let mut rr = Rng::new(s);
                 let sock = UdpSocket::bind("127.0.0.1:0").unwrap();
@@ -478,6 +485,7 @@ fn workers_round(out: &mut Out, r: &mut Rng, nworkers: usize, nclients: usize, p
                         sock.send_to(&req, addr).unwrap();
                         pairs.push((req, vec![]));
                     }
+                    barrier.wait(); // all clients have sent; the main thread now continues the server
                     for _ in 0..per_client {
                         if let Ok((n, _)) = sock.recv_from(&mut buf) {
                             attribute(&mut pairs, &mut extra, buf[..n].to_vec());
@@ -486,6 +494,7 @@ fn workers_round(out: &mut Out, r: &mut Rng, nworkers: usize, nclients: usize, p
                         }
                     }
                 } else {
+                    barrier.wait();
                     for _ in 0..per_client {
                         let req = if rr.chance(1, 2) { classic_request(&rr.bytes(64), 1024) } else { ietf_request(&VER13, None, &rr.bytes(32), 1024 + 4 * rr.below(20) as usize) };
                         sock.send_to(&req, addr).unwrap();
@@ -508,6 +517,10 @@ fn workers_round(out: &mut Out, r: &mut Rng, nworkers: usize, nclients: usize, p
             })
         })
         .collect();
+    barrier.wait();
+    if burst {
+        sp.signal(libc::SIGCONT);
+    }
     let mut all_pairs: Vec<(Vec<u8>, Vec<Vec<u8>>)> = vec![];
     let mut extras = 0usize;
     for h in handles {
